@@ -17,10 +17,10 @@ if os.environ.get('VERIF_C03_NOFIX'):
     FIX = {'FixF3': 'FALSE', 'FixF15': 'FALSE'}
 
 
-def fam(name, adders, rot, counters, warm, init_open, clock, cap, max_extra=None, warm_cell=1):
+def fam(name, adders, rot, counters, warm, init_open, clock, cap, max_extra=None, warm_cell=1, nrot=1):
     total = sum(n for (_t, _c, n) in adders) + len(warm)
     return dict(name=name, adders=adders, rot=rot, counters=counters, warm=warm, init_open=init_open, clock=clock,
-                cap=cap, max_extra=max_extra or max(3, total), warm_cell=warm_cell)
+                cap=cap, max_extra=max_extra or max(3, total), warm_cell=warm_cell, nrot=nrot)
 
 
 def families(tier):
@@ -37,6 +37,9 @@ def families(tier):
         fam('growth2cold', [('a1', 'c2', 1), ('a2', 'c3', 1)], [], ['c1', 'c2', 'c3'], ['c1'], True, 1, 0),
         # saturation: the persisted value is one below its limit and two increments arrive
         fam('saturate2', [('a1', 'c1', 1), ('a2', 'c1', 1)], [], ['c1'], ['c1'], True, 1, 2, warm_cell=14),
+        # two rotations in a row (the clock moves on between them): the second one meets the state the first left
+        # behind (a closed previous mapping, counters invalidated once already, a counter re-registered in between)
+        fam('rotation2x', [('a1', 'c1', 2)], ['r'], ['c1'], ['c1'], True, 2, 2, nrot=2),
     ]
     big = [
         fam('rotation1x2', [('a1', 'c1', 2)], ['r'], ['c1'], ['c1'], True, 2, 2),
@@ -62,15 +65,17 @@ MCAdders == %s
 MCRot == %s
 MCCtrOf == %s
 MCNAdds == %s
+MCNRot == %s
 ====
 ''' % (name, base, sset(ad), sset(f['rot']),
        '(' + ' @@ '.join('"%s" :> "%s"' % (a[0], a[1]) for a in f['adders']) + ')' if ad else '<<>>',
-       '(' + ' @@ '.join('"%s" :> %d' % (a[0], a[2]) for a in f['adders']) + ')' if ad else '<<>>')
+       '(' + ' @@ '.join('"%s" :> %d' % (a[0], a[2]) for a in f['adders']) + ')' if ad else '<<>>',
+       '(' + ' @@ '.join('"%s" :> %d' % (r, f.get('nrot', 1)) for r in f['rot']) + ')' if f['rot'] else '<<>>')
 
 
 def mc_cfg(f, spec='Spec', invariants=(), props=(), view=True, deadlock=False, fix=None):
     fx = fix or FIX
-    s = 'SPECIFICATION %s\nCONSTANTS\n Adders <- MCAdders\n Rotators <- MCRot\n CtrOf <- MCCtrOf\n NAdds <- MCNAdds\n' % spec
+    s = 'SPECIFICATION %s\nCONSTANTS\n Adders <- MCAdders\n Rotators <- MCRot\n CtrOf <- MCCtrOf\n NAdds <- MCNAdds\n NRot <- MCNRot\n' % spec
     s += ' Counters = %s\n Warm = %s\n InitOpen = %s\n ClockSpan = %d\n Capacity = %d\n CapNew = 4\n GrowBy = 4\n MaxExtra = %d\n MaxCell = 15\n WarmCell = %d\n' % (
         sset(f['counters']), sset(f['warm']), 'TRUE' if f['init_open'] else 'FALSE', f['clock'], f['cap'], f['max_extra'], f['warm_cell'])
     s += ' FixF3 = %s\n FixF15 = %s\n' % (fx['FixF3'], fx['FixF15'])
@@ -126,6 +131,7 @@ PC_LABEL = {
     'IVr_load': ('load<(*Counter).refresh', 'Uint64.Load'), 'IVr_cas': ('update<(*Counter).refresh', 'Uint64.CompareAndSwap'),
     'RO_lock': ('(*file).rotate1', 'Mutex.Lock'), 'RO_prev': ('(*file).rotate1', 'Pointer.Load'),
     'RO_store': ('(*file).rotate1', 'Pointer.Store'), 'RO_defcur': ('(*file).rotate1.func', 'Pointer.Load'),
+    'RO_tick': ('c03One', 'tick'),
 }
 
 
@@ -170,7 +176,7 @@ def label_script(states, sequential=False):
 
 
 def run_cfg(f, rid, schedule, finish, seed, trace=True):
-    return dict(id=rid, family=f['name'], adders=[dict(name=a[0], ctr=a[1], n=a[2]) for a in f['adders']], rotators=f['rot'],
+    return dict(id=rid, family=f['name'], adders=[dict(name=a[0], ctr=a[1], n=a[2]) for a in f['adders']], rotators=f['rot'], nRot=f.get('nrot', 1),
                 counters=f['counters'], warm=f['warm'], initOpen=f['init_open'], clock2=(f['clock'] == 2), capacity=f['cap'],
                 maxExtra=f['max_extra'], warmCell=f['warm_cell'], maxCell=15, schedule=schedule, finish=finish, seed=seed, trace=trace)
 
@@ -341,7 +347,7 @@ def run(ctx):
             f, why = runfam[k]
             if sig.endswith('hold-after-close') and k in obs:
                 sig += ':' + signature_context(res, obs[k], None, f)
-            ctx.violation(sig, {'run': runs[k - 1], 'result': {x: res[x] for x in ('status', 'fault', 'st', 'ptr', 'cell1', 'cell2', 'begun', 'schedule')}},
+            ctx.violation(sig, {'run': runs[k - 1], 'result': {x: res[x] for x in ('status', 'fault', 'st', 'ptr', 'cell1', 'cell2', 'cell3', 'begun', 'schedule')}},
                           '%s run %d (%s): %s %s' % (f['name'], k, why, res['status'], json.dumps(res.get('fault'))))
     ctx.cov['runs'] = len(runs)
     ctx.cov['runs_failed'] = nfail
@@ -354,7 +360,7 @@ def run(ctx):
     for k in sorted(obs):
         res = results[k]
         for o in obs[k]:
-            o2 = {x: o[x] for x in ('run', 'i', 't', 'st', 'ptr', 'cur', 'open', 'cell1', 'cell2', 'begun', 'done', 'faulted', 'fileopen')}
+            o2 = {x: o[x] for x in ('run', 'i', 't', 'st', 'ptr', 'cur', 'open', 'cell1', 'cell2', 'cell3', 'begun', 'done', 'faulted', 'fileopen')}
             o2['ntasks'] = len(runs[k - 1]['adders']) + len(runs[k - 1]['rotators'])
             o2['final'] = False
             o2['sat'] = runs[k - 1]['warmCell'] != 1
@@ -408,7 +414,7 @@ def run(ctx):
             tl = []
             for k in remaining:
                 for o in obs[k]:
-                    tl.append({x: o[x] for x in ('run', 'i', 't', 'st', 'ptr', 'nxt', 'head', 'cur', 'open', 'mu', 'cell1', 'cell2', 'begun', 'faulted')})
+                    tl.append({x: o[x] for x in ('run', 'i', 't', 'st', 'ptr', 'nxt', 'head', 'cur', 'open', 'mu', 'cell1', 'cell2', 'cell3', 'begun', 'faulted')})
             r = ctx.tlc('MCCounterTrace', files={'MCCounterTrace.tla': mc_module(f, base='CounterTrace', name='MCCounterTrace'),
                                                  'c03trace.ndjson': ndjson_text(tl)},
                         cfg_text=mc_cfg(f, spec='TSpec', invariants=['Conform'], view=False, deadlock=True), workers=1,
